@@ -1048,6 +1048,12 @@ type loopH struct {
 }
 
 func (h *loopH) nextNonce() uint64 { h.nonce++; return h.nonce }
+func (h *loopH) nextStoreInst() uint64 {
+	if l := h.cs.Latest(); l != nil {
+		return l.GPBFTInstance + 1
+	}
+	return h.s.Init
+}
 
 func (h *loopH) lobs() ev {
 	o := h.obs()
@@ -1188,8 +1194,8 @@ func (h *loopH) prio1() {
 	if !waiting || h.run.Begun() {
 		return
 	}
-	k := h.run.Progress().ID
-	if latestOf(h.cs)+1 != int64(k) {
+	k := h.nextStoreInst() // the probe needs the node to be working on the instance the next certificate is for
+	if h.run.Progress().ID != k {
 		return
 	}
 	ms, _ := msOf(tA)
@@ -1243,8 +1249,8 @@ func (h *loopH) prio1() {
 // k+1 is already due, and meanwhile a DECIDE vote for k+1 arrives.  Served alarm first: instance k+1 begins with
 // nothing queued.  Served message first: the vote is queued and handed over when the instance begins.
 func (h *loopH) prio2() {
-	k := h.run.Progress().ID
-	if latestOf(h.cs)+1 != int64(k) {
+	k := h.nextStoreInst()
+	if h.run.Progress().ID != k {
 		return
 	}
 	h.backend.mu.Lock()
